@@ -14,6 +14,8 @@ import (
 	"github.com/goblimey/go-ntrip/rtcm/handler"
 )
 
+var queueDeadlocked string
+
 func msgID(m handler.Message) int { return int(m.Timestamp) }
 
 func idMsg(id int) handler.Message {
@@ -106,16 +108,31 @@ func init() {
 				}
 			}()
 		}
-		for i := 0; i < n; i++ {
-			atomic.AddInt64(&begun, 1)
-			q.Add(idMsg(i))
-			atomic.AddInt64(&done, 1)
-			if i%64 == 0 {
-				time.Sleep(50 * time.Microsecond)
-			}
+		// watchdog: a lock-ordering mistake shows as adders and readers waiting for each other for ever
+		if queueDeadlocked != "" {
+			// an earlier case left goroutines stuck in this process; do not wait again
+			return &Obs{Line: "deadlock", Data: o, Panic: queueDeadlocked, NoModel: true}
 		}
-		close(stop)
-		wg.Wait()
+		finished := make(chan struct{})
+		go func() {
+			for i := 0; i < n; i++ {
+				atomic.AddInt64(&begun, 1)
+				q.Add(idMsg(i))
+				atomic.AddInt64(&done, 1)
+				if i%64 == 0 {
+					time.Sleep(50 * time.Microsecond)
+				}
+			}
+			close(stop)
+			wg.Wait()
+			close(finished)
+		}()
+		select {
+		case <-finished:
+		case <-time.After(10 * time.Second):
+			queueDeadlocked = fmt.Sprintf("deadlock: after 10 s only %d of %d additions had completed while %d readers were taking snapshots", atomic.LoadInt64(&done), n, readers)
+			return &Obs{Line: "deadlock", Data: o, Panic: queueDeadlocked, NoModel: true}
+		}
 		final := q.GetMessages()
 		s := snap{addsDoneBefore: int64(n), addsBegunAfter: int64(n), held: len(q.Items)}
 		for _, m := range final {
@@ -176,8 +193,8 @@ func init() {
 		},
 		Oracle: func(op string, ob *Obs) string {
 			o, ok := ob.Data.(*queueObs)
-			if !ok {
-				return "panic: " + ob.Panic
+			if !ok || ob.Panic != "" {
+				return "panic or deadlock: " + ob.Panic
 			}
 			if o.mutated != "" {
 				return o.mutated
